@@ -377,15 +377,12 @@ Proof.
 Qed.
 
 (* ---------- templates ---------- *)
-Lemma holes_trusted_except_known :
-  forall h, In h html_holes -> unescaped h = true -> KnownClass_safe_parent_link h = false ->
-            forallb (fun o => negb (untrusted o)) (h_from h) = true.
+Lemma unescaped_holes_trusted :
+  forall h, In h html_holes -> unescaped h = true -> forallb (fun o => negb (untrusted o)) (h_from h) = true.
 Proof.
-  assert (H : forallb (fun h => negb (unescaped h) || KnownClass_safe_parent_link h
-                               || forallb (fun o => negb (untrusted o)) (h_from h)) html_holes = true)
+  assert (H : forallb (fun h => negb (unescaped h) || forallb (fun o => negb (untrusted o)) (h_from h)) html_holes = true)
     by (vm_compute; reflexivity).
-  rewrite forallb_forall in H. intros h Hin Hu Hk. specialize (H h Hin).
-  rewrite Hu, Hk in H. exact H.
+  rewrite forallb_forall in H. intros h Hin Hu. specialize (H h Hin). rewrite Hu in H. exact H.
 Qed.
 
 (* ---------- a start tag with attributes ---------- *)
@@ -469,9 +466,6 @@ Lemma json_string_exact : forall s post,
   json_unescape v = Some s /\ rest = 34 :: post.
 Proof. intros s post. rewrite json_string_end. split; [apply json_escape_inverse|reflexivity]. Qed.
 
-Lemma safe_hole_refuted : exists h,
-  In h html_holes /\ KnownClass_safe_parent_link h = true /\ h_safe h = true /\ existsb untrusted (h_from h) = true.
-Proof. exists (H "macros.html" "parent.0 | safe" true [OConst; OOption; OName]). vm_compute. tauto. Qed.
 Lemma breadcrumb_fixed : forall p d1 d2,
   tokens mstep MText (breadcrumb false p d1) = tokens mstep MText (breadcrumb false p d2).
 Proof.
